@@ -89,16 +89,16 @@ func init() {
 			wmc(w, r, "LogRecovery."+m, map[*types.Func]bool{w.MethodObj("recovery/log_recovery", "LogRecovery", m): true}, map[string]string{"samehada.NewSamehadaDB": "start-up, before logging is activated"}, 1)
 		}
 		// pool I/O on resident pages: Data()/GetData() of a page inside package buffer needs b.mutex or the page latch
+		hs := w.bpmHelpers()
 		for _, fn := range w.methodsOf("storage/buffer", "BufferPoolManager") {
-			recv := "p:" + fn.Params[0].Name()
-			mu := recv + ".mutex"
+			mu := bpmRecvMutex(fn)
 			init := map[string]string{}
-			if callerHoldsBPM[fn.Name()] {
+			if hs[fn].EntryHeld {
 				init[mu] = "W"
 			}
 			var bad []string
 			n := 0
-			lw := &LockWalk{W: w, Fn: fn, Init: init,
+			lw := &LockWalk{W: w, Fn: fn, Init: init, CallEffect: w.bpmCallEffect(fn, hs, nil),
 				OnInstr: func(in ssa.Instruction, st *LState) {
 					c, ok := in.(*ssa.Call)
 					if !ok {
